@@ -47,16 +47,16 @@ type vsPartition struct {
 	// idempotent producer state: per producer id
 	pstate map[int64]*vsProducerState
 	// transaction index
-	okFetches int64      // fetch answers without error served for this partition
-	aborted []VSimAborted // first offset of each aborted transaction (with producer id and last offset)
-	lso     int64        // last stable offset; -1 = equals high watermark
+	okFetches int64         // fetch answers without error served for this partition
+	aborted   []VSimAborted // first offset of each aborted transaction (with producer id and last offset)
+	lso       int64         // last stable offset; -1 = equals high watermark
 }
 
 type vsBatchMeta struct {
-	epoch     int16
-	first     int32
-	last      int32
-	base      int64
+	epoch int16
+	first int32
+	last  int32
+	base  int64
 }
 
 type vsProducerState struct {
@@ -100,11 +100,11 @@ type VSim struct {
 	metaVer    int64
 
 	// behaviours; nil = behave
-	OnRequest  func(ctx *VSimReqCtx) VSimConnAction           // any request, before it is handled
-	OnProduce  func(ctx *VSimProduceCtx) VSimProduceAction    // per partition batch
-	OnFetch    func(ctx *VSimFetchCtx) VSimFetchAction        // per fetch request
-	OnMetadata func(ctx *VSimReqCtx) VSimConnAction           // per metadata request (after OnRequest)
-	OnGroup    func(ctx *VSimGroupCtx) VSimGroupAction        // join/sync/heartbeat/leave/commit/offset-fetch/find-coordinator
+	OnRequest  func(ctx *VSimReqCtx) VSimConnAction        // any request, before it is handled
+	OnProduce  func(ctx *VSimProduceCtx) VSimProduceAction // per partition batch
+	OnFetch    func(ctx *VSimFetchCtx) VSimFetchAction     // per fetch request
+	OnMetadata func(ctx *VSimReqCtx) VSimConnAction        // per metadata request (after OnRequest)
+	OnGroup    func(ctx *VSimGroupCtx) VSimGroupAction     // join/sync/heartbeat/leave/commit/offset-fetch/find-coordinator
 	OnAdmin    func(ctx *VSimAdminCtx) VSimAdminAction
 
 	groups map[string]*vsGroup
@@ -130,8 +130,8 @@ type VSimReqCtx struct {
 type VSimConnAction struct {
 	Kind     int // 0 proceed; 1 drop before handling; 2 handle then drop without answering; 3 handle then stay silent; 4 stay silent without handling
 	DelayMs  int
-	WrongID  bool  // answer with another correlation id
-	Truncate int   // >0: send only this many bytes of the answer, then close
+	WrongID  bool // answer with another correlation id
+	Truncate int  // >0: send only this many bytes of the answer, then close
 }
 
 const (
